@@ -56,7 +56,12 @@ def chk_assoc(inp):
     short, long_, o = (s1, s2, off) if snd_longer else (s2, s1, -off)
     D = np.abs(long_[None, :] + o - short[:, None])
     eps = 8 * np.finfo(float).eps * max(1.0, float(np.abs(s1).max()), float(np.abs(s2).max()), abs(off))
-    ambiguous = bool(np.any(np.abs(D - md) <= eps))
+    exact = bool(inp.get("exact"))
+    if exact:
+        # stamps, offset and max_diff are multiples of 1/8 below 2^31: every sum and difference in the code and in this
+        # oracle is exact in float64, so a difference exactly equal to max_diff is decided, not skipped (seed C05-c)
+        eps = 0.0
+    ambiguous = (not exact) and bool(np.any(np.abs(D - md) <= eps))
     srt = np.sort(D, axis=1)
     if D.shape[1] > 1:
         ambiguous = ambiguous or bool(np.any(srt[:, 1] - srt[:, 0] <= eps))
@@ -158,12 +163,21 @@ def _cases(tier, seed):
     yield ("assoc", {"s1": [0.0, 0.4], "s2": [0.1, 5.0, 10.0], "max_diff": 1.0, "offset": 0.0})
     yield ("assoc", {"s1": [0.1, 5.0, 10.0], "s2": [0.0, 0.4], "max_diff": 1.0, "offset": 0.0})
     yield ("assoc", {"s1": [0.0, 0.25, 0.5], "s2": [0.25, 8.0, 9.0, 10.0], "max_diff": 0.25, "offset": 0.0})
+    # a pose whose nearest counterpart is exactly max_diff away, at the start, in the interior and after the end of the
+    # other trajectory, both argument orders, with an offset, max_diff = 0 (exact arithmetic)
+    for a_, b_, md_, off_ in (([0.0, 1.0, 2.0, 3.0, 4.0], [2.0, 4.5], 0.5, 0.0), ([0.0, 1.0, 2.0, 3.0, 4.0], [-0.5, 2.0], 0.5, 0.0),
+                              ([0.0, 1.0, 2.0, 3.0, 4.0], [1.5, 4.0], 0.5, 0.0), ([0.0, 1.0, 2.0], [1.0, 2.0], 0.0, 0.0),
+                              ([8.0, 9.0, 10.0, 11.0, 12.5], [0.0, 1.0, 2.0, 3.0, 4.0, 4.25], 0.25, 8.0),
+                              ([0.0, 1.0, 2.0, 3.0], [3.75], 0.75, 0.0), ([0.0, 1.0, 2.0, 3.0], [3.75], 0.5, 0.0)):
+        yield ("assoc", {"s1": a_, "s2": b_, "max_diff": md_, "offset": off_, "exact": True})
+        yield ("assoc", {"s1": b_, "s2": a_, "max_diff": md_, "offset": -off_, "exact": True})
     for it in range(N):
         kind = ["regular", "jitter", "gaps", "dyadic"][int(rng.integers(0, 4))]
         n1 = int(rng.integers(1, 12)) if it % 3 else int(rng.integers(1, maxlen))
         n2 = n1 if it % 7 == 0 else (int(rng.integers(1, 12)) if it % 3 else int(rng.integers(1, maxlen)))
         s1 = _stamps(rng, n1, kind)
-        s2 = _stamps(rng, n2, ["regular", "jitter", "gaps", "dyadic"][int(rng.integers(0, 4))] if it % 2 else kind)
+        kind2 = ["regular", "jitter", "gaps", "dyadic"][int(rng.integers(0, 4))] if it % 2 else kind
+        s2 = _stamps(rng, n2, kind2)
         if kind == "dyadic":
             off = float(rng.integers(-16, 17)) / 8.0
             md = float(rng.integers(0, 9)) / 8.0       # differences exactly equal to max_diff occur
@@ -175,7 +189,8 @@ def _cases(tier, seed):
         if it % 5 == 0:
             e = 1.5e9 if kind != "dyadic" else float(2**30)
             s1, s2 = s1 + e, s2 + e
-        yield ("assoc", {"s1": s1, "s2": s2, "max_diff": md, "offset": off, "from_poses": bool(it % 2)})
+        yield ("assoc", {"s1": s1, "s2": s2, "max_diff": md, "offset": off, "from_poses": bool(it % 2),
+                         "exact": kind == "dyadic" and kind2 == "dyadic"})
         if it % 4 == 0:
             yield ("mti", {"s1": s1, "s2": s2, "max_diff": md, "offset": off})
 
